@@ -147,6 +147,7 @@ def graph_lang(sname, L, batch):
 # fraction of the (model x expression batch) product that is run per structure in the quick tier
 QUICK_FRACTION = {"S3": 0.30, "S1": 1.0, "S2": 0.05, "S4": 1.0}
 SINGLES_FRACTION = {"S3": 1.0, "S1": 1.0, "S2": 0.15, "S4": 1.0}
+T_FRACTION = {"S3": 0.05, "S1": 0.25, "S2": 0.12, "S4": 0.5}      # further factor for the transitive batches
 
 
 def _is_tiny(L, links):
@@ -169,6 +170,7 @@ def cases(tier, seed):
             big = list(G.models_random(L, 3, 300, rnd))
         else:
             big = list(G.models_random(L, 3, 3000, rnd)) + list(G.models_random(L, 4, 1500, rnd))
+        nb4 = 10000
         fits = lambda T, types: any(L.is_sub(t, T) for t in types)
         # (1) one expression per case on the tiny models (smallest recipes)
         p1 = SINGLES_FRACTION[sname] if quick else 1.0
@@ -179,24 +181,30 @@ def cases(tier, seed):
                 if not fits(T, types) or (p1 < 1.0 and rnd.random() >= p1): continue
                 yield {"k": "eval", "lang": eval_lang, "src": T, "exprs": [full(e)], "model": mrec}
                 yield {"k": "graph", "lang": graph_lang(sname, L, [(T, e)]), "model": mrec}
-        # (2) batches of expressions x (every <=2-asset model in every decomposition, random larger models)
+        # (2) batches of expressions x (every <=2-asset model in every decomposition, random larger models);
+        #     expressions with a transitive operator are kept in batches / languages of their own, so that a
+        #     non-terminating closure cannot hide what the other operators do
         allx = small + deep
-        by_src = {}
-        for (T, e) in allx: by_src.setdefault(T, []).append(e)
-        ebatches = [(T, [full(e) for e in es[k:k + 25]]) for T, es in sorted(by_src.items())
-                    for k in range(0, len(es), 25)]
-        mixed = list(allx); random.Random("%s/mix/%s" % (seed, sname)).shuffle(mixed)
-        glangs = [graph_lang(sname, L, mixed[k:k + 8]) for k in range(0, len(mixed), 8)]
         p2 = QUICK_FRACTION[sname] if quick else 1.0
-        for (types, links, mode) in m12 + big:
-            mrec = G.model_recipe(types, links)
-            p = p2 if mode != "rnd" else (0.12 if quick else 0.2)
-            for (T, es) in ebatches:
-                if fits(T, types) and (p >= 1.0 or rnd.random() < p):
-                    yield {"k": "eval", "lang": eval_lang, "src": T, "exprs": es, "model": mrec}
-            for gl in glangs:
-                if p >= 1.0 or rnd.random() < p:
-                    yield {"k": "graph", "lang": gl, "model": mrec}
+        for has_t in (False, True):
+            part = [(T, e) for (T, e) in allx if bool(G.trans_fields(L, e)) == has_t]
+            ne, ng = (25, 8) if not has_t else (6, 2)
+            by_src = {}
+            for (T, e) in part: by_src.setdefault(T, []).append(e)
+            ebatches = [(T, [full(e) for e in es[k:k + ne]]) for T, es in sorted(by_src.items())
+                        for k in range(0, len(es), ne)]
+            mixed = list(part); random.Random("%s/mix/%s" % (seed, sname)).shuffle(mixed)
+            glangs = [graph_lang(sname, L, mixed[k:k + ng]) for k in range(0, len(mixed), ng)]
+            for (types, links, mode) in m12 + big:
+                mrec = G.model_recipe(types, links)
+                p = p2 if mode != "rnd" else (0.12 if quick else 0.2)
+                if has_t and quick: p *= T_FRACTION[sname]
+                for (T, es) in ebatches:
+                    if fits(T, types) and (p >= 1.0 or rnd.random() < p):
+                        yield {"k": "eval", "lang": eval_lang, "src": T, "exprs": es, "model": mrec}
+                for gl in glangs:
+                    if p >= 1.0 or rnd.random() < p:
+                        yield {"k": "graph", "lang": gl, "model": mrec}
         # (3) inheritance shapes
         if sname in FOLD_EXPRS:
             fl = list(fold_languages(sname))
@@ -232,7 +240,7 @@ def _clause_of_blame(b):
 def run_case(recipe):
     L = G.Lang(recipe["lang"])
     mv = G.ModelView(L, recipe["model"])
-    real = G.Real(L, recipe["model"], nav_budget=recipe.get("nb", 3000))
+    real = G.Real(L, recipe["model"], nav_budget=recipe.get("nb", 2000))
     r = CaseResult()
     seen = set()
     if real.build_error is not None:
@@ -252,9 +260,13 @@ def _run_eval(recipe, L, mv, real, r, seen):
     pool = [k for k in range(mv.n) if L.is_sub(mv.types[k], src)]
     subsets = [frozenset(c) for n in range(len(pool) + 1) for c in itertools.combinations(pool, n)]
     nontrivial = False
+    dead_fields = set()
     for e in recipe["exprs"]:
         inner = e[1] if e[0] == "c" and e[2][0] == "a" else e
         top = "C01.eval." + G.OPNAME[inner[0]]
+        tf = G.trans_fields(L, e)
+        if tf & dead_fields:
+            continue          # closure over this field already failed to terminate in this case
         dead = []
         for X in subsets:
             if any(d <= X for d in dead): continue
@@ -264,10 +276,14 @@ def _run_eval(recipe, L, mv, real, r, seen):
             ok = st == "ok" and lo <= got <= hi and name == G.step_name(e)
             if ok:
                 r.check(top, True, FN_EVAL)
-                if "t" in G.ops_of(e): r.check("C01.terminates", True, FN_EVAL)
+                if tf: r.check("C01.terminates", True, FN_EVAL)
                 continue
-            if st != "ok": dead.append(X)
-            b = G.blame(real, mv, e, X)
+            if st not in ("ok", "exc"):
+                dead.append(X)
+                b = G.nonterm_blame(real, mv, e, X, st, got)
+                if b is not None and b["kind"] == "term": dead_fields |= tf
+            else:
+                b = G.blame(real, mv, e, X)
             if b is None:
                 b = dict(op=inner[0], kind="term" if st not in ("ok", "exc") else "exc" if st == "exc" else "value",
                          sig="unlocalised:" + G.OPNAME[inner[0]] + ":" + (st if st != "ok" else "value"),
@@ -293,7 +309,15 @@ def _run_graph(recipe, L, mv, real, r, seen):
 
     st, g = real.generate()
     if st != "ok":
-        b = culprit(expected)
+        b = None
+        if st != "exc":
+            for (x, s) in expected:
+                for e in steps_of[mv.types[x]][s]["exprs"] or []:
+                    if G.cyclic_trans(mv, e, [x]):
+                        b = G.nonterm_blame(real, mv, e, [x], st, g); break
+                if b: break
+        if b is None:
+            b = culprit(expected)
         if st == "exc":
             sig = "generate:" + G.describe(st, g) + (":" + b["sig"] if b else "")
             r.check("C01.no-crash", False, FN_GEN, "AttackGraph(lang, model) raised %r%s" % (
